@@ -134,6 +134,8 @@ class SimTerminal:
         self.mbx_wait = 0
         self.mbx_log = []          # ("w", raw, False) master wrote / ("r", raw, busy) master read
         self.mbx_busy = lambda: False   # more answers of the same exchange to come?
+        self.mbx_fetch_delay = lambda: 0   # status polls a request waits in the full mailbox
+        self.mbx_unfetched = None
         self.sm_open = {}          # sm index -> True while a buffer access is open
         self.sm_full = {}          # sm index -> mailbox full flag
         # process data application: called once per frame that touches us
@@ -316,6 +318,13 @@ class SimTerminal:
             self.mbx_queue.append(bytes(msg))
 
     def _sm_status_refresh(self):
+        if self.mbx_unfetched is not None:
+            self.mbx_unfetched[2] -= 1
+            if self.mbx_unfetched[2] <= 0:
+                i, raw, _ = self.mbx_unfetched
+                self.mbx_unfetched = None
+                self.sm_full[i] = False
+                self._mailbox_received(i, raw)
         self._mbx_pump()
         for i in range(self.n_sm):
             start, length, ctrl, act = self.sm_regs(i)
@@ -410,7 +419,15 @@ class SimTerminal:
                 raw = bytes(self.mem[start:start + length])
                 self.mbx_log.append(("w", raw, False))
                 self.world.log(self.name, "mbx-write", raw[:24])
-                self._mailbox_received(i, raw)
+                d = self.mbx_fetch_delay()
+                if d > 0:
+                    # a slow application: the request stays in the (full) mailbox for
+                    # d more status polls before it is taken out
+                    self.sm_full[i] = True
+                    self.mbx_unfetched = [i, raw, d]
+                    self.world.count("esc/mailbox-request-fetched-late")
+                else:
+                    self._mailbox_received(i, raw)
             return True
         self.mem[ado:ado + n] = data
         return True
